@@ -131,9 +131,9 @@ def run(tier, replay=None):
     # --- MC (runs concurrently with the harness / trace validation: 4 + 1 TLC workers) ---------------
     mc_future = None
     if not replay or "invariant" in (json.load(open(replay))["case"]):
-        cfg = "MC_C16_thorough.cfg" if tier == "thorough" else "MC_C16_quick.cfg"
+        cfgs = ["MC_C16_thorough.cfg" if tier == "thorough" else "MC_C16_quick.cfg", "MC_C16_ckpt.cfg"]
         pool = concurrent.futures.ThreadPoolExecutor(max_workers=1)
-        mc_future = pool.submit(tlc, "MC_C16", cfg, workers=4, timeout=3 * 3600, tags=())
+        mc_future = pool.submit(lambda: [(c, tlc("MC_C16", c, workers=4, timeout=3 * 3600, tags=())) for c in cfgs])
 
     # --- TV + direct decision ------------------------------------------------------------------------
     total_events = total_reads = accepted = 0
@@ -185,21 +185,22 @@ def run(tier, replay=None):
         accepted += _tv(ck, trace, f"c16_{mode}", seed, tier, mode)
 
     if mc_future is not None:
-        res = mc_future.result()
-        ck.add_tlc(res)
-        if res.violation:
-            ck.violation(f"spec:{cfg}:{res.violation}", "TLC property violated on the model:\n" + res.error_text[:3000],
-                         {"cfg": cfg, "invariant": res.violation, "trace": res.error_text[:20000]})
-        elif res.distinct < 100:
-            raise ToolError(f"{cfg}: only {res.distinct} states (vacuous)")
-        ck.cov["mc_states"] = res.distinct
+        ck.cov["mc_states"] = {}
+        for cfg, res in mc_future.result():
+            ck.add_tlc(res)
+            if res.violation:
+                ck.violation(f"spec:{cfg}:{res.violation}", "TLC property violated on the model:\n" + res.error_text[:3000],
+                             {"cfg": cfg, "invariant": res.violation, "trace": res.error_text[:20000]})
+            elif res.distinct < 50:
+                raise ToolError(f"{cfg}: only {res.distinct} states (vacuous)")
+            ck.cov["mc_states"][cfg] = res.distinct
 
     if modes:
         need = ["obs:CB/head:ok", "obs:CB/snapshot:ok", "obs:RT/truth:ok", "obs:QV/query:ok", "obs:RT/head:UnsupportedFrameProjection",
                 "obs:CB/head:InvalidTick", "obs:CB/head:InvalidWorldline", "obs:QV/query:UnsupportedQuery",
                 "obs:QV/query:ContractQueryObserverFailed", "obs:CB/head:BudgetExceeded", "optic:wl:head:ok/commit",
                 "optic:wl:head:MissingWitness", "optic:wl:head:BudgetExceeded", "optic:att:attb:AttachmentDescentRequired"]
-        need += ["posture:Worldline", "posture:StrandHistorical"]
+        need += ["posture:Worldline", "posture:StrandHistorical", "optic_ckpt_around:cptail"]
         if tier == "thorough":
             need += ["posture:StrandAtAnchor", "posture:StrandParentAdvancedDisjoint", "posture:StrandRevalidationRequired",
                      "optic:wl:head:ok/cptail", "optic:wl:head:LiveTailRequiresReduction"]
